@@ -10,7 +10,7 @@ Definition RC (eps : R) : cctx R := CC ROps PI sqrt (cart_lat ROps eps).
 
 Ltac gen_unfold :=
   unfold step, set_Un, set_Bn, get_Un, get_Bn, rd_U, rd_Uiso, rd_Biso, rd_aniso, rd_msdLat, rd_msdCart, the_lat,
-    set_anisotropy, set_U, set_Uisoequiv, set_Bisoequiv, get_Bisoequiv, get_U, msdLat, msdCart,
+    msdLat, msdCart, set_anisotropy, set_U, set_Uisoequiv, set_Bisoequiv, get_Bisoequiv, get_U,
     set_U11, set_U22, set_U33, set_U12, set_U13, set_U23, set_B11, set_B22, set_B33, set_B12, set_B13, set_B23,
     get_U11, get_U22, get_U33, get_U12, get_U13, get_U23, get_B11, get_B22, get_B33, get_B12, get_B13, get_B23,
     set_Uij, get_Uij, get_Uisoequiv, get_anisotropy, Lattice_norm, Lattice_cartesian, c_UtoB, c_BtoU, c_lat_epsilon in *;
@@ -277,4 +277,93 @@ Proof.
   intros Hi. rewrite Biso_char, setBiso_is_setUiso, (setUiso_get _ _ Hi). field. apply k8pi2_neq.
 Qed.
 
+Lemma msdLat_pure s v : fst (msdLat C s v) = s.
+Proof. destruct s as [U an lat]. gen_unfold. destruct an; reflexivity. Qed.
+
+Lemma msd_flag_off s v : st_aniso s = false -> rd_msdLat C s v = rd_Uiso C s /\ rd_msdCart C s v = rd_Uiso C s.
+Proof. intros E. destruct s as [U an lat]. cbn [st_aniso] in E. subst an. gen_unfold. split; reflexivity. Qed.
+
+Lemma msd_id1 n u x : vdot x (mvmul (mmul (mT n) (mmul u n)) x) = vdot (mvmul n x) (mvmul u (mvmul n x)).
+Proof. dmat n; dmat u; dvec x; rm_simpl; ring. Qed.
+Lemma mvmul_mmul a b x : mvmul (mmul a b) x = mvmul a (mvmul b x).
+Proof. dmat a; dmat b; dvec x; apply vec_eq; rm_simpl; ring. Qed.
+Lemma mvmul_vmul_gram b v : mvmul b (vmul v b) = mvmul (mmul b (mT b)) v.
+Proof. dmat b; dvec v; apply vec_eq; rm_simpl; ring. Qed.
+Lemma mvmul_vscale a k x : mvmul a (vscale k x) = vscale k (mvmul a x).
+Proof. dmat a; dvec x; apply vec_eq; rm_simpl; ring. Qed.
+Lemma msd_id2 d1 d2 d3 b v k :
+  mvmul (mmul (diag3 d1 d2 d3) b) (vscale k (vmul v b)) = mvmul (mmul (diag3 d1 d2 d3) (mmul b (mT b))) (vscale k v).
+Proof. rewrite !mvmul_mmul, !mvmul_vscale, mvmul_vmul_gram, mvmul_mmul. reflexivity. Qed.
+Lemma toV_gvdivs v k : toV (gvdivs ROps v k) = vscale (/ k) (toV v).
+Proof. dgv v; apply vec_eq; g_simpl; rm_simpl; unfold Rdiv; ring. Qed.
+Lemma toM_rowscale d1 d2 d3 g :
+  toM (GM (gvscale ROps d1 (mrow g i0)) (gvscale ROps d2 (mrow g i1)) (gvscale ROps d3 (mrow g i2))) = mmul (diag3 d1 d2 d3) (toM g).
+Proof. dgm g; unfold diag3; apply mat_eq; g_simpl; rm_simpl; ring. Qed.
+
+Lemma msd_lat_cart s v : inv s -> st_aniso s = true ->
+  rd_msdLat C s v = rd_msdCart C s (Lattice_cartesian C (the_lat C s) v).
+Proof.
+  intros Hi Ea. pose proof (the_lat_ok s Hi) as Hl. destruct Hl as [H1 H2 _ _ _].
+  destruct s as [U an lat]. cbn [st_aniso] in Ea. subst an. gen_unfold.
+  generalize dependent (lat_or lat (cart_lat ROps eps)). intros L Hx Hy.
+  rewrite !gvdot_toV, !toV_gmvmul, !toM_gmmul, toM_gmT, !toV_gvdivs, toM_rowscale, toV_gvmmul.
+  rewrite msd_id1, Hx, Hy, msd_id2. reflexivity.
+Qed.
+
+(* in an anisotropic state whose tensor is u times the unit tensor the displacement is u along every direction
+   whose Cartesian length is not zero *)
+Lemma msd_cart_isotropic_tensor s u vc : inv s -> st_aniso s = true -> st_U s = gmscale ROps u (iso_of s) ->
+  gvsum ROps (gvsq ROps vc) <> 0 -> rd_msdCart C s vc = u.
+Proof.
+  intros Hi Ea EU Hn. pose proof (iso_cart s Hi) as Hc. unfold iso_of, N_of, the_lat in *.
+  destruct s as [U an lat]. cbn [st_aniso st_U st_lat] in *. subst an. gen_unfold. rewrite EU.
+  generalize dependent (lat_or lat (cart_lat ROps eps)). intros L _ Hc.
+  rewrite gvdot_toV, toV_gmvmul, !toM_gmmul, toM_gmT, toM_gmscale, mmul_mscale_l, mmul_mscale_r, Hc, toV_gvdivs.
+  assert (Hs : 0 <= gvsum ROps (gvsq ROps vc)).
+  { dgv vc. g_simpl. nra. }
+  set (q := gvsum ROps (gvsq ROps vc)) in *.
+  assert (Hq : sqrt q * sqrt q = q) by (apply sqrt_sqrt; exact Hs).
+  assert (Hsq : sqrt q <> 0) by (intros Z; rewrite Z in Hq; lra).
+  assert (Ev : vdot (toV vc) (toV vc) = q) by (unfold q; dgv vc; g_simpl; rm_simpl; ring).
+  transitivity (u * (/ sqrt q * / sqrt q) * vdot (toV vc) (toV vc)).
+  { dgv vc. g_simpl. rm_simpl. ring. }
+  rewrite Ev. rewrite <- Hq at 3. field. exact Hsq.
+Qed.
+
+(* ---------- stale storage never becomes readable ---------- *)
+(* two states are observationally equal when flag and lattice agree and the part of the storage the flag makes
+   meaningful agrees: the whole tensor (flag on) or only the first element (flag off) *)
+Definition obs_eq (s s' : astate R) : Prop :=
+  st_aniso s = st_aniso s' /\ st_lat s = st_lat s' /\
+  (if st_aniso s then st_U s = st_U s' else mget (st_U s) i0 i0 = mget (st_U s') i0 i0).
+
+Lemma obs_eq_refl s : obs_eq s s.
+Proof. repeat split. destruct (st_aniso s); reflexivity. Qed.
+
+Ltac obs_start :=
+  match goal with H : obs_eq ?s ?s' |- _ =>
+    destruct s as [U an lat]; destruct s' as [U' an' lat']; destruct H as [Ha [Hl Hu]];
+    cbn [st_aniso st_lat st_U] in Ha, Hl, Hu; subst an' lat'; destruct an;
+    [subst U' | dgm U; dgm U'; g_simpl; subst] end.
+
+Lemma step_obs_eq s s' o : obs_eq s s' -> obs_eq (step C s o) (step C s' o).
+Proof.
+  intros H. destruct o; obs_start; try apply obs_eq_refl;
+    try (destruct b); try (destruct n); gen_unfold; g_simpl; repeat split; reflexivity.
+Qed.
+
+Lemma run_obs_eq ops : forall s s', obs_eq s s' -> obs_eq (run C s ops) (run C s' ops).
+Proof.
+  induction ops as [|o r IH]; intros s s' H; [exact H|]. cbn [run fold_left]. apply IH, step_obs_eq, H.
+Qed.
+
+Lemma observe_obs_eq s s' : obs_eq s s' -> observe C s = observe C s'.
+Proof.
+  intros H. obs_start; [reflexivity|]. unfold observe, all_names. cbn [map]. gen_unfold. g_simpl. reflexivity.
+Qed.
+
+Lemma msd_obs_eq s s' v : obs_eq s s' -> rd_msdLat C s v = rd_msdLat C s' v /\ rd_msdCart C s v = rd_msdCart C s' v.
+Proof.
+  intros H. obs_start; [split; reflexivity|]. gen_unfold. g_simpl. split; reflexivity.
+Qed.
 End WithEps.
